@@ -61,6 +61,7 @@ def oracle(text: str, toks) -> tuple[str, object] | None:
     prev_start = (0, 0)
     n_indent = n_dedent = n_end = 0
     open_line = False
+    depth = 0
     for i, t in enumerate(toks):
         name = t.type.name
         if t.start < prev_start:
@@ -92,6 +93,18 @@ def oracle(text: str, toks) -> tuple[str, object] | None:
         # logical-line structure
         # (a NEWLINE closing a logical line without significant tokens, e.g. after a lone
         #  backslash line, is not forbidden by the property and is not flagged)
+        # bracket depth as the text shows it (a stray closer opens nothing: clamped at 0)
+        if t.type == T.OP and t.string[-1:] in "([{":
+            depth += 1
+        elif t.type == T.OP and t.string in (")", "]", "}"):
+            depth = max(0, depth - 1)
+        # a physical line end outside brackets and strings ends the logical line: if that line holds a significant token,
+        # the line end must be a NEWLINE token -- not an NL, and not part of some other token's text
+        if depth == 0 and open_line and "\n" in t.string:
+            if t.type == T.NL:
+                return ("line-end-of-open-logical-line-is:NL", {"index": i, "start": t.start})
+            if t.type in (T.ERRORTOKEN, T.NAME, T.NUMBER, T.OP):
+                return (f"line-end-swallowed-by:{name}", {"index": i, "start": t.start, "string": t.string[:40]})
         if t.type == T.NEWLINE:
             open_line = False
         elif t.type not in (T.WS, T.COMMENT, T.NL, T.INDENT, T.DEDENT, T.ENDMARKER) and not (t.type == T.ERRORTOKEN and t.string.isspace()):
